@@ -132,41 +132,115 @@ func (R *Repository) tryUpdateSignatureCertFromChain(entry *Entry, chains *core.
 	}
 }
 
-func (R *Repository) loadCRL(entry *Entry, chains *core.CertificateChains) (err error) {
+// loadCRL loads the crl of an entry for the first time. Caller must hold the write lock of the entry.
+func (R *Repository) loadCRL(entry *Entry, chains *core.CertificateChains) error {
+	locations, _ := entry.CRLStore.GetCRLLocations()
+	store, err := R.loadCRLIntoTemporaryStore(entry, chains, locations)
+	if err != nil {
+		return err
+	}
+	return R.activateLoadedStore(entry, store)
+}
+
+// loadCRLIntoTemporaryStore downloads and parses the crl of an entry into a temporary store and checks its
+// signature according to the signature validation mode. The store of the entry is not touched: a crl which is
+// damaged, rejected or only partly read never becomes visible (neither to lookups nor after a restart).
+func (R *Repository) loadCRLIntoTemporaryStore(entry *Entry, chains *core.CertificateChains, locations *core.CRLLocations) (store crlstore.CRLStore, err error) {
 	R.logger.Debug("loading crl", zap.String("crl", entry.CRLLoader.GetDescription()))
 	tempFileName, err := R.createTempFile()
 	if err != nil {
-		return err
+		return nil, err
 	}
 	defer utils.CloseWithErrorHandling(func() error { return os.Remove(tempFileName) })
+	defer func() {
+		if err != nil && store != nil {
+			store.Close()
+			err2 := store.Delete()
+			if err2 != nil {
+				R.logger.Warn("failed to delete database", zap.Error(err2))
+			}
+			store = nil
+		}
+	}()
 	err = entry.CRLLoader.LoadCRL(tempFileName)
 	if err != nil {
-		return err
+		return nil, err
 	}
-	var processor = crlstore.CRLPersisterProcessor{CRLStore: entry.CRLStore}
+	identifier, err := entry.CRLLoader.GetCRLLocationIdentifier()
+	if err != nil {
+		return nil, err
+	}
+	store, err = R.Factory.CreateStore(identifier, true)
+	if err != nil {
+		return nil, err
+	}
+	var processor = crlstore.CRLPersisterProcessor{CRLStore: store}
+	if locations != nil {
+		err = processor.UpdateCRLLocations(locations)
+		if err != nil {
+			return store, err
+		}
+	}
 	result, err := R.crlReader.ReadCRL(processor, tempFileName)
 	if err != nil {
-		return err
+		return store, err
 	}
 	if R.crlConfig.SignatureValidationModeParsed != config.SignatureValidationModeNone {
-		signatureCert, err := verifyCRLSignature(result, chains)
-		if err != nil {
+		signatureCert, err2 := verifyCRLSignature(result, chains)
+		if err2 != nil {
 			R.logger.Warn("could not validate signature of crl", zap.String("crl", entry.CRLLoader.GetDescription()))
 			if R.crlConfig.SignatureValidationModeParsed == config.SignatureValidationModeVerify {
-				return err
+				err = err2
+				return store, err
 			}
 		} else {
 			R.logger.Debug("signature of crl validated successfully", zap.String("crl", entry.CRLLoader.GetDescription()))
 			err = processor.UpdateSignatureCertificate(signatureCert)
 			if err != nil {
-				return err
+				return store, err
 			}
-			R.logger.Debug("crl loaded successfully", zap.String("crl", entry.CRLLoader.GetDescription()))
 		}
 	}
+	return store, nil
+}
+
+// activateLoadedStore makes a completely loaded and accepted temporary store the store of the entry.
+// Caller must hold the write lock of the entry.
+func (R *Repository) activateLoadedStore(entry *Entry, store crlstore.CRLStore) error {
+	err := entry.CRLStore.Update(store)
+	if err != nil {
+		store.Close()
+		err2 := store.Delete()
+		if err2 != nil {
+			R.logger.Warn("failed to delete database", zap.Error(err2))
+		}
+		return err
+	}
+	R.logger.Debug("crl loaded successfully", zap.String("crl", entry.CRLLoader.GetDescription()))
 	entry.Loaded = true
 	entry.Chains = nil
 	return nil
+}
+
+// loadCRLInBackground loads the crl of an entry which is not loaded yet without blocking lookups while the crl
+// is downloaded and parsed (used by the periodic update and by fetch_background)
+func (R *Repository) loadCRLInBackground(entry *Entry) error {
+	entry.entryLock.RLock()
+	chains := entry.Chains
+	locations, _ := entry.CRLStore.GetCRLLocations()
+	entry.entryLock.RUnlock()
+	store, err := R.loadCRLIntoTemporaryStore(entry, chains, locations)
+	if err != nil {
+		return err
+	}
+	entry.entryLock.Lock()
+	defer entry.entryLock.Unlock()
+	//check again after getting write lock if entry is still not loaded
+	if entry.Loaded {
+		store.Close()
+		return store.Delete()
+	}
+	return R.activateLoadedStore(entry, store)
 }
 
 func (R *Repository) addNewEmptyEntry(loader crlloader.CRLLoader, identifier string, chains *core.CertificateChains, crlLocations *core.CRLLocations) (*Entry, error) {
@@ -283,7 +357,7 @@ func (R *Repository) updateCRL(identifier string) error {
 	if entry != nil {
 		R.logger.Debug("updating crl from " + entry.CRLLoader.GetDescription())
 		if R.isEntryLoaded(entry) == false {
-			return R.loadCRL(entry, entry.Chains)
+			return R.loadCRLInBackground(entry)
 		} else {
 			return R.updateCrlEntry(entry, nil)
 		}
